@@ -258,15 +258,24 @@ def scenario(ch, cfg):
                     state["dict"] = True
                 state["remote_defs"] += 1
                 name = f"rf{state['remote_defs']}"
-                body, ar = ch.pick([("{x+1}", 1), ("{x,x}", 1), ("{x*y}", 2)], "rbody")
+                body, ar = ch.pick([("{x+1}", 1), ("{x,x}", 1), ("{x*y}", 2), ("{(+/x)%#x}", 1), ("{|/x,0}", 1)], "rbody")
                 stats["probe_remote_fn_definition"] += 1
+                setsrc = f"d,:{name},{body}"
+                if ch.draw(2, "used_locally_first"):
+                    # the function is defined and used on the client first, then sent under its name (the usual order
+                    # of events: try it locally, then install it on the server)
+                    stats["probe_remote_definition_of_a_function_used_locally_first"] += 1
+                    cl(f"l{name}::{body}")
+                    cl(f"l{name}({';'.join(['[1 2 3]' if '/' in body else '2'] * ar)})")
+                    setsrc = f"d,:{name},l{name}"
                 try:
-                    cl(f"d,:{name},{body}")
+                    cl(setsrc)
                     twin(f"{name}::{body}")
                 except BaseException as e:   # noqa
                     if isinstance(e, SystemExit):
                         raise
-                    viol(f"C13:remote-def-raised:{type(e).__name__}", f"d,:{name},{body}: {str(e)[:80]}")
+                    import re as _re
+                    viol(f"C13:remote-def-raised:{type(e).__name__}", f"{setsrc} (function body {body}): {_re.sub('0x[0-9a-f]+', '0x..', str(e))[:80]}")
                     continue
                 state["fns"][name] = ar
                 both("dict-get-fn", f"p{name}::d?:{name}", lambda name=name: twin(name))
